@@ -150,6 +150,23 @@ theorem restat_after_load_does_not_converge :
     (scanStep 16 17 (scanStepRestat 16 17 ⟨[], []⟩ A B) B).loaded = [(a, 10)] ∧
     (scanStep 16 17 (scanStep2 16 17 ⟨[], []⟩ A A) B).loaded = [(a, 11)] := by decide
 
+/-- **`Stable` is needed, and the real watcher has this gap** (known finding `C19-sidecar-aba-during-load`): scan stats
+    shard `a` without a sidecar; before the loader opens it a sidecar appears (the loader reads content 11 = shard +
+    sidecar); after the load the sidecar is removed again. The directory is then exactly as stat'ed, so the next scan
+    reloads nothing and content 11 stays loaded although the directory holds 10. mtimes cannot show an A-B-A that fits
+    inside one scan's stat-to-load window. -/
+theorem aba_during_load_does_not_converge :
+    let a : Bytes := [102, 95, 118, 49, 54, 46, 122]
+    let A : Disk := [⟨⟨a, some 1, none⟩, 10⟩]        -- as stat'ed, and again after the load
+    let B : Disk := [⟨⟨a, some 1, some 5⟩, 11⟩]      -- at the moment of the load
+    ¬ Stable A B A ∧ (scanStep 16 17 (scanStep2 16 17 ⟨[], []⟩ A B) A).loaded = [(a, 11)] := by
+  refine ⟨?_, by decide⟩
+  intro h
+  have := (h ⟨⟨[102, 95, 118, 49, 54, 46, 122], some 1, none⟩, 10⟩ (by simp)
+    ⟨⟨[102, 95, 118, 49, 54, 46, 122], some 1, none⟩, 10⟩ (by simp) rfl rfl rfl rfl).2
+    ⟨⟨[102, 95, 118, 49, 54, 46, 122], some 1, some 5⟩, 11⟩ (by simp) rfl
+  simp at this
+
 /-- the single "latest mtime" the watcher kept before the second fix cannot see a sidecar that is removed while the
     shard is the newer file: different (shard, sidecar) states, same timestamp -/
 theorem effTime_forgets_sidecar : ∃ (mt s : Nat), (mt, some s) ≠ ((mt, none) : Stamp) ∧ effTime mt (some s) = effTime mt none :=
@@ -235,6 +252,16 @@ theorem replaced_closable (s : CState) (sid : Nat) (hf : sid ∈ s.finalizable) 
 theorem C19_checkCow (ops : List COp) (obs : List CObs) (h : cowObs CState.init ops = some obs) :
     checkCow {} obs = none :=
   checkCow_model ops CState.init {} obs CReach.init ⟨rfl, rfl, rfl, rfl, by simp [CState.init], rfl⟩ h
+
+/-- **publication in chunks loses nothing**: `loader.load` hands the shards it has loaded so far to `replace` whenever
+    5 s have passed and the rest at the end. Replacing with chunk `b1` and then with chunk `b2` gives the same map as
+    replacing with `b1 ++ b2` at once — provided every loaded shard is in exactly one chunk, which is what the loader's
+    "store into the *current* batch, under the mutex" guarantees (a shard stored into an already published batch is in
+    no chunk: lost; the harness's slow-load scenario checks the real loader for that). -/
+theorem chunked_publication (m : List (Nat × Nat)) (b1 b2 : List (Nat × Bool)) (n : Nat) :
+    expectedAfter (expectedAfter m (assignIds b1 n).1) (assignIds b2 (assignIds b1 n).2).1 =
+      expectedAfter m (assignIds (b1 ++ b2) n).1 := by
+  rw [assignIds_append, expectedAfter_append]
 
 /-! ## non-vacuity -/
 
